@@ -3,7 +3,8 @@
    Model: Edit/Model.v ([ocache] = the _bbox of groups and documents; [fresh_bbox] = Group.extract_bbox
    computed now, following the stored _parent pointers for visibility as the code does).
    Coherent s (Edit/Cache.v): every filled cache equals the fresh value. *)
-From PsdV Require Import Base.Prelude Edit.Model Edit.Corr Edit.Inv Edit.Cache Edit.Forest Edit.ProofsInv Edit.ProofsCache.
+From PsdV Require Import Base.Prelude Edit.Model Edit.Corr Edit.Inv Edit.Cache Edit.Forest Edit.ProofsInv Edit.ProofsTree
+  Edit.ProofsCache Edit.ProofsCoh.
 Open Scope Z_scope.
 
 (* ---------------------------------------------------------------- read-only operations are pure *)
@@ -44,13 +45,72 @@ Example coherent_scene1 :
   Coherent s /\ ocache (objs s 1) = Some (1, 0, 6, 3).
 Proof. split; [apply coherentb_iff; vm_compute; reflexivity | vm_compute; reflexivity]. Qed.
 
-(* ---------------------------------------------------------------- setters *)
-(* layer.left = v: every cache that is still filled afterwards and whose object does not have the moved
-   layer below it equals a fresh computation.  setter_keeps_coherent_partial: the complementary half --
-   "the caches of all objects above the layer were dropped", which needs the reachability of every
-   lister through the stored _parent chain (true under Inv on the repaired variant a55dbce, false
-   for documents before it, see document_cache_stale_refuted) -- is not proved here; it is checked on
-   the implementation after every step by the staleness oracle of harness/vh/c14.py. *)
+(* ---------------------------------------------------------------- derived values are never stale (repaired variant) *)
+(* CoherentA s (Edit/ProofsCoh.v): every group or document that hangs below a document ([att]) and has a filled
+   bbox cache answers exactly the fresh computation.  [fixedv]: the variant with the repairs a55dbce (caches dropped
+   upwards incl. the document, downwards on group visibility and on adoption) and edc9f34.
+   One step, ANY of the 27 modelled operations -- every structure edit, every setter, every read-only operation --
+   from ANY state satisfying the invariant, inside [guard] (objects exist; layers handed to append / extend /
+   insert / item assignment are detached = no double listing, the class of F-C14-4).  The proof needs that
+   _invalidate_bbox_upwards reaches every lister through the stored _parent chain (inval_up_reach: I1 + a size
+   argument for the fuel) and that a fresh bbox only depends on the subtree and on the visibility chain above it.
+   Objects that do NOT hang below a document are outside the statement: a removed group keeps its stale _parent
+   and its cache can go stale (F-C14-5, stale_parent_chain_refuted); when it is attached again all caches inside
+   it are dropped, which is why the attached part stays coherent. *)
+Theorem step_coherent : forall s o,
+  Inv s -> quiet s -> fixedv s -> guard s o -> CoherentA s -> CoherentA (fst (step s o)).
+Proof. intros s o HI Q. apply step_cohA. split; assumption. Qed.
+Print Assumptions step_coherent.
+
+(* every guarded history, of any length, from any coherent state satisfying the invariant *)
+Theorem history_coherent : forall h s,
+  Inv s -> quiet s -> fixedv s -> guards s h -> CoherentA s -> CoherentA (run s h).
+Proof. intros h s HI Q. apply run_cohA. split; assumption. Qed.
+Print Assumptions history_coherent.
+
+(* ... in particular every state reachable from nothing *)
+Theorem reachable_coherent : forall c h,
+  cachefix c = true -> clipsfix c = true -> descfix c = true ->
+  guards (empty_state_v c) h -> CoherentA (run (empty_state_v c) h).
+Proof.
+  intros c h C1 C2 C3 Hg. apply run_cohA; [apply empty_good; left; exact C3 | split; assumption | exact Hg|].
+  intros j b _ _ Hc. cbn in Hc. discriminate.
+Qed.
+Print Assumptions reachable_coherent.
+
+Example coherent_history_example :
+  let s := run (empty_state_v (mkCfg true true true true true)) init1 in
+  guards s [ObsBbox 0; ObsBbox 1; ObsBbox 2; MoveToGroup 4 2; SetVisible 1 false; NewPixel (Some 0) 0 0 2 2; Insert 2 0 7; SetLeft 3 5].
+Proof. apply guardsb_ok. vm_compute. reflexivity. Qed.
+
+(* with a coherent attached object, the answer of bbox is the fresh value: coherent_bbox_answer above
+   (stated for Coherent; the same proof works from the cache entry of the object asked) *)
+
+(* outside the guard: a layer listed in two groups (accepted by append, F-C10-1) reports only its last lister, so a
+   setter drops the caches above that one only: the attached group 2 keeps a stale box -- on the repaired variant *)
+Theorem double_listing_breaks_coherence_refuted :
+  exists s h, Inv s /\ CoherentA s /\ ~ guards s h /\ ~ CoherentA (run s h).
+Proof.
+  exists (run (empty_state_v (mkCfg true true true true true)) init4), [Append 0 3; ObsBbox 2; SetLeft 3 6].
+  split; [apply Invb_iff; vm_compute; reflexivity|].
+  split; [apply coherent_cohA; [apply Invb_iff; vm_compute; reflexivity | apply coherentb_iff; vm_compute; reflexivity]|].
+  set (S0 := run (empty_state_v (mkCfg true true true true true)) init4).
+  set (S1 := run S0 [Append 0 3; ObsBbox 2; SetLeft 3 6]).
+  split.
+  - intros [[_ Hr] _]. unfold rootid in Hr. revert Hr. apply notin_memz. vm_compute. reflexivity.
+  - intro C.
+    assert (A : att S1 2).
+    { apply (att_child _ 0 2).
+      - apply att_doc; [vm_compute; reflexivity | apply memz_In; vm_compute; reflexivity].
+      - apply In_edge_b. vm_compute. reflexivity. }
+    assert (E1 : is_container S1 2 = true) by (vm_compute; reflexivity).
+    assert (E2 : ocache (objs S1 2) = Some (3, 2, 5, 5)) by (vm_compute; reflexivity).
+    assert (E3 : fresh_bbox S1 2 = Some (6, 2, 8, 5)) by (vm_compute; reflexivity).
+    rewrite (C 2 _ A E1 E2) in E3. discriminate.
+Qed.
+Print Assumptions double_listing_breaks_coherence_refuted.
+
+(* the partial statement about left/top that needs no invariant at all *)
 Theorem setter_keeps_coherent_partial : forall s x v w,
   Coherent s -> snd (step s (SetLeft x v)) = Done w ->
   forall j b, 0 <= j < next s -> ocache (objs (fst (step s (SetLeft x v))) j) = Some b ->
